@@ -70,7 +70,9 @@ Definition ops : list (string * (tree -> tree)) := [
   ("codes", fun t =>   (* [w, h] or [] -> [position_cursor, restore_cursor] *)
       let sh := match tL t with [w; h] => Some (tZ w, tZ h) | _ => None end in
       L [ofStr (position_cursor sh); ofStr (restore_cursor sh)]);
-  ("facts", fun _ => L [ofB progress_start_guarded; ofB live_stop_visible_unless_transient]);
+  ("facts", fun _ => L [ofB progress_start_guarded; ofB live_stop_visible_unless_transient;
+                        ofB live_stop_restores_overflow; ofB live_stop_resets_shape;
+                        ofB progress_stop_resets_shape; ofB live_transient_final_room]);
   (* ---- spec-level checkers on the given bytes (the harness passes the implementation's) ---- *)
   ("spec.view_ok", fun t =>   (* [case, bytes]: expectation from the history, screen from the bytes *)
       let '(c, (s, _, _)) := run_case (tNth t 0) in
